@@ -660,3 +660,17 @@ gproof! { fn c16_arc_clone_below_limit_adds_one() {
     core::mem::forget(a);
     core::mem::forget(b);
 } }
+
+// ------------------------------------------------------------------------------------------
+// C07: allocation failure (private allocator entry point)
+// ------------------------------------------------------------------------------------------
+
+// @h props=C07 fuc=Arc::try_allocate_for_layout note="allocator failure: Err, nothing written"
+gproof! { fn c07_try_allocate_failure_is_err() {
+    let keep = Arc::new(1u8); // makes the ghost allocator visible (END cover)
+    unsafe { vrt::G_FAIL_AT = vrt::G_ALLOCS + 1; }
+    let r = unsafe { Arc::<u64>::try_allocate_for_layout(Layout::new::<u64>(), |mem| mem as *mut ArcInner<u64>) };
+    assert!(r.is_err() && vrt::glive(1));
+    core::mem::forget(keep);
+} }
+
